@@ -9,7 +9,11 @@ import vlib
 MANIFEST = {
     "text": "Stage-wise Coq theorems (disassembly incl. the library's own re-encoding assertion never panics on any non-empty byte "
             "string; the 21 constant-folding operators never panic on any 256-bit operands; recorded sizes of limited values cannot "
-            "wrap; the gas counter stays below the limit; VectorMap/DisjointSet never panic or run out of fuel) plus, on every run, the "
+            "wrap; the gas counter stays below the limit; VectorMap/DisjointSet never panic or run out of fuel; "
+            "the three packing passes never panic on any tree the VM can produce (packing_no_panic, get_region_no_panic); all 16 inference "
+            "rules and TypeChecker::infer never panic or fail on registered values (rules_no_panic_*, infer_no_panic); abi_type_for and the "
+            "layout loop terminate and never panic on closed class tables (abi_terminates, abi_no_panic; refuted for the pinned arithmetic) "
+            "-- these stage models are tied to the real passes / rules / unify by per-run correspondence) plus, on every run, the "
             "inventory of ALL panic-capable sites in the MIR of the library as it is now (overflow/divide asserts, bounds checks, "
             "unwrap/expect/panic/assert_failed, Index::index): every function with such sites must be registered and classified "
             "(modelled by a development / unreachable / outside the analysis path); a new site is a broken obligation. The composition "
@@ -72,6 +76,10 @@ def check(ctx):
         sites = {}
     ctx.coverage.update({"evaluations": len(lines) * len(profiles), "distinct_nontrivial": len(set(progs)),
                          "outcome_classes": dict(outcome), "panic_sites_by_status_and_kind": sites})
+    import p_tc_stages as TS
+    TS.suite(ctx, translate=False, parts=("rules", "rules-single", "abi"),
+             codes={"register": {12}, "rules": {12, 25}, "abi": {20, 25}, "classes": {79}}, cov_key="tc_stages",
+             only=r"^(rules_total|rules_no_panic|infer_no_panic|abi_terminates|abi_no_panic|default_rules_are)")
     import p_passes_packing
     p_passes_packing.suite(ctx, translate=False, codes={11}, cov_key="lifting_passes_packing", only=r"^(packing_no_panic|shift_of_non_subword|packed_encoding_panics|sub_word_pinned_panics|packed_encoding_pinned_panics|get_region_no_panic)")
     return vlib.finish(ctx, rule="hostile programs x random small/large limits x error mode x stage prefix; distinct = distinct byte "
